@@ -238,12 +238,20 @@ def clauses(tier, seed):
       Clause('numeric:sigma<->pressure conversions on affine columns, surface pressure, constant extrapolation', 'numeric', conv, run_conversions, group='jax-b', heavy=True),
       Clause('numeric:bilinear / nearest horizontal regridders reproduce constants and are the identity on equal grids', 'numeric', hz,
              run_horizontal_regridders, group='jax-c', heavy=True),
-  ]
+  ] + _pyvc_clauses()
+
+
+def _pyvc_clauses():
+  from contracts import interp_contracts
+  return interp_contracts.clauses()
 
 
 MANIFEST = {
-    'engine': 'rtc',
-    'technique': 'contract-based run-time post-conditions: weight vectors extracted from the real kernels (complete over data by linearity) against an independent loop specification; enumerated node sets and query points; bounded',
-    'text': 'other: complete over data (weights), bounded over node sets / queries / surface pressures. The accelerator path (_dot_interp) is called directly since the CPU suite never executes it.',
+    'engine': 'pyvc+rtc',
+    'technique': ('contract-based deductive: VCs from the real source of linear_interp_with_linear_extrap, _dot_interp and _extrapolate_* in 1-d array mode (symbolic node count, '
+                  'all real queries; z3) -- two-point formula, affine exactness, node values, neighbour bounds, documented extrapolation; bounded run-time twins: weight vectors '
+                  'against an independent loop specification, sigma<->pressure conversions, horizontal regridders'),
+    'text': ('other: the interpolation kernels (including the accelerator path _dot_interp that the CPU suite never executes) are proved for every node count, strictly increasing '
+             'node set and real query (floats as reals); jnp.interp, the safe-extrapolation wrapper, the coordinate conversions and the horizontal regridders are bounded (enumerated).'),
     'note': 'trusted: the loop specification spec_weights (written from the documentation); jnp.interp; A1/A2.',
 }
